@@ -934,6 +934,92 @@ def rule_stack_sim(ctx, rep, only_raises=False):
     rep.floor(rule, total, 300)
 
 
+def _char_class(c):
+    import unicodedata
+    if c is None:
+        return 'EDGE'
+    if c.isspace():
+        return 'ws'
+    if unicodedata.category(c).startswith('P') or (ord(c) < 128 and not c.isalnum() and not c.isspace() and c.isprintable()):
+        return 'punct'
+    return 'other'
+
+
+def _scan_chunk(args):
+    """Worker: fold find_core_tokens on each string of a chunk and compare with the specification."""
+    model, strings = args
+    f = model.func('core_tokens.find_core_tokens')
+    bad = []
+    for text in strings:
+        # the delimiter runs of the text and what the specification says about each
+        dels, i = [], 0
+        while i < len(text):
+            if text[i] in '*_':
+                j = i
+                while j < len(text) and text[j] == text[i]:
+                    j += 1
+                prev = _char_class(text[i - 1] if i > 0 else None)
+                nxt = _char_class(text[j] if j < len(text) else None)
+                dels.append({'ch': text[i], 'n': j - i, 'start': i, 'open': flanking.can_open(prev, nxt, text[i]),
+                             'close': flanking.can_close(prev, nxt, text[i])})
+                i = j
+            else:
+                i += 1
+        want = []
+        for oi, ur, ci, ul, k in spec_emphasis(dels):
+            want.append((dels[oi]['start'] + dels[oi]['n'] - ur - k, dels[ci]['start'] + ul + k, 'Strong' if k == 2 else 'Emphasis'))
+        it = Interp(model, loop_bound=64, while_bound=64)
+        it.reset_run(Oracle())
+        try:
+            r = it.call_function(f, [text, None], {})
+            got = []
+            for mo in (r if isinstance(r, list) else []):
+                if isinstance(mo, Obj) and mo.attrs.get('type') in ('Strong', 'Emphasis'):
+                    got.append((mo.attrs.get('_start'), mo.attrs.get('_end'), mo.attrs.get('type')))
+            got = sorted(got)
+        except Raised as e:
+            got = 'raises %s' % e.exc.kind
+        except InterpError as e:
+            got = 'not interpreted: %s' % e
+        if got != sorted(want):
+            bad.append((text, got, sorted(want)))
+    return len(strings), bad[:5], len(bad)
+
+
+def rule_scan_fold(ctx, rep):
+    """The scanner that finds the delimiter runs and asks the flanking predicates about them, end to end with the
+    stack processing: find_core_tokens is folded on every text  X run Y run Z  with X, Y, Z one representative of each
+    neighbour class (a letter, a space, a no-break space, ASCII punctuation, Unicode punctuation, the edge) and the
+    runs one or two of the same or of different delimiter characters; the emphasis matches it returns must be the
+    ones the specification's classification of the runs and its delimiter algorithm give."""
+    from ..par import pmap
+    model = ctx.model
+    rule = 'R-SCAN-FOLD'
+    rep.rule(rule, 'find_core_tokens, folded on texts of two delimiter runs in every neighbourhood, returns the emphasis matches of the specification')
+    reps = ['', 'a', ' ', '\xa0', '.', '\xab']
+    runs = [('*', '*'), ('_', '_'), ('**', '**'), ('__', '__'), ('*', '**'), ('__', '_'), ('*', '_')]
+    texts = []
+    for x, y, z in itertools.product(reps, reps[1:], reps):
+        for r1, r2 in runs:
+            texts.append(x + r1 + y + r2 + z)
+    texts = list(dict.fromkeys(texts))
+    chunks = [texts[i:i + 80] for i in range(0, len(texts), 80)]
+    total, n_bad, shown = 0, 0, []
+    for n, bad, cnt in pmap(_scan_chunk, [(model, ch) for ch in chunks]):
+        total += n
+        n_bad += cnt
+        shown.extend(bad)
+    rep.instance(rule)
+    rep.obligation(rule, n_bad == 0, {'texts': total, 'differences': n_bad, 'examples': [repr(b[0]) for b in shown[:5]]})
+    if shown:
+        text, got, want = shown[0]
+        f = model.func('core_tokens.find_core_tokens')
+        rep.find(rule, 'core_tokens.find_core_tokens', 'text-differs',
+                 'for the text %r the scanner returns the emphasis matches %s; the specification gives %s (%d of %d texts differ)'
+                 % (text, got, want, n_bad, total), loc(model.unit_of(f), f.node), witness=text)
+    rep.floor(rule, total, 1000)
+
+
 def run(ctx):
     rep = ctx.report
     rule_flank(ctx, rep)
@@ -943,6 +1029,7 @@ def run(ctx):
     rule_inv_delim(ctx, rep)
     rule_strong_n(ctx, rep)
     rule_stack_sim(ctx, rep)
+    rule_scan_fold(ctx, rep)
     rep.assume('abstract neighbour classes are exhaustive: whitespace, ASCII punctuation, non-ASCII Unicode '
                'punctuation, anything else, line edge')
     rep.assume('run lengths influence closed_by only modulo 3 (any other use is reported)')
